@@ -330,4 +330,61 @@ def rule_osh_repress(prog):
         res.viol("released_keys.retain", "%s:%s" % (f.file, f.line_of(tgt) if tgt is not None else f.lo),
                  "the OneShotKey arm of handle_press can finish without removing the re-pressed key from released_keys: when the "
                  "one-shot ends, the key is released although it is physically held")
+    # ... and the caller reports every press of a one-shot key: the OneShot arm of do_action reaches
+    # handle_press(OneShotKey(..)) on every path
+    g = prog.fn(DO_ACTION)
+    res.fn(g)
+    swd = main_switch(prog, g)
+    if swd is not None and swd.target("OneShot") is not None:
+        reg = swd.arm_region("OneShot")
+        calls = []
+        for b in reg:
+            t = g.term(b)
+            if t["k"] == "call" and callee_name(t) == HANDLE_PRESS and len(t["args"]) > 1:
+                r = Resolver(g).root(t["args"][1])
+                if r[0] == "agg" and r[1][2].get("v") == "OneShotKey":
+                    calls.append(b)
+        ok2 = bool(calls) and _must_pass(g, swd.target("OneShot"), reg | set(calls), calls)
+        res.inst("do_action/OneShot-arm-reports-key", sites=len(calls), on_every_path=ok2)
+        res.oblige(ok2)
+        if not ok2:
+            res.viol("do_action/OneShot-arm-reports-key", "%s:%s" % (g.file, g.line_of(swd.target("OneShot"))),
+                     "the OneShot arm of do_action can finish without calling handle_press(OneShotKey(coord)): a re-pressed one-shot "
+                     "key stays in released_keys and is released while it is physically held")
+    else:
+        res.viol("do_action/OneShot-arm", g.loc, "do_action has no OneShot arm")
+    return res
+
+
+def rule_state_clear(prog):
+    """R-STATE-CLEAR (C04): keys of an output chord that are flagged "clear on next action" are removed when *any* next
+    action runs: the retain that drops them dominates the match on the action, it is not conditional on the action."""
+    res = RuleResult("R-STATE-CLEAR", "clear-on-next-action keys are dropped before every action", floor=1)
+    f = prog.fn(DO_ACTION)
+    res.fn(f)
+    sw = main_switch(prog, f)
+    if sw is None:
+        res.viol("shape", f.loc, "do_action no longer matches on the Action variant")
+        return res
+    n = 0
+    for bi, t in f.calls():
+        if (callee_name(t) or "") != "heapless::vec::Vec::retain":
+            continue
+        fl = receiver_fields(f, t)
+        if not (fl and fl[-1] == "states"):
+            continue
+        from rules.r_cancel import closure_arg
+        c = closure_arg(prog, f, t["args"][1]) if len(t["args"]) > 1 else None
+        if c is None or not any((callee_name(t2) or "").endswith("nkf_clear_on_next_action") for _, t2 in c.calls()):
+            continue
+        n += 1
+        ok = f.dominates(bi, sw.bb)
+        res.inst("retain#%d" % n, where="%s:%s" % (f.file, t.get("ln")), before_every_action=ok)
+        res.oblige(ok)
+        if not ok:
+            res.viol("retain#%d" % n, "%s:%s" % (f.file, t.get("ln")),
+                     "the removal of clear-on-next-action keys no longer runs before every action (it does not dominate the match on "
+                     "the action): the modifiers of an output chord stay down while e.g. a layer key is pressed")
+    if n == 0:
+        res.viol("anchors", f.loc, "do_action no longer removes clear-on-next-action keys")
     return res
